@@ -10,6 +10,13 @@ Queries are adversarial: exactly at nodes, midpoints, +-1 ulp around nodes and a
 extrapolation limits, just outside, far outside, duplicates.
 Sentinel probes evaluate the property itself on the real code against independent numpy oracles.
 
+One-node node sets: finding `dot-interp-one-node` (`_dot_interp(2.0,[2.0],[7.0])` was 0.0, `jnp.interp` 7.0) is
+repaired by the left override `x <= xp[0]` of `_dot_interp`; the model mirrors the repaired code
+(`Dino.Interp.dotInterp`, theorems `dotInterp_one_node`, `dotInterp_eq_interp` for every node count >= 1).  The
+probe expects the two code paths to be equal at, below and above the only node, and one-node sets are part of the
+`_dot_interp` correspondence stream.  The pre-repair routine (`dotInterpOld`, theorem
+`dotInterpOld_one_node_ne_interp`) is replayed against the model only.
+
 Outside the model (documented): NaN queries and denormal queries (XLA on CPU treats denormals as
 zero, so `-5e-324 < 0.0` is false there); the +-1 ulp neighbours of a node `0.0` are therefore
 taken at +-`finfo.tiny`.
@@ -195,11 +202,12 @@ def run(ctx: common.Ctx):
   # every distinct node count costs one XLA compilation per routine: the quick tier draws from the corners
   # {1, 2, 3, 12} plus two seed-dependent counts, the thorough tier from all of 2..12
   n_pool = list(range(2, 13)) if not ctx.quick else [2, 3, 12] + [int(v) for v in rng.choice(range(4, 12), 2, replace=False)]
+  corr_pool = [1] + n_pool     # one-node sets belong to the stream (both paths of `interp` are defined and equal there)
   for ci in range(ncases):
     if ci < len(forced):
       n, kind = forced[ci]
     else:
-      n, kind = int(rng.choice(n_pool)), None
+      n, kind = int(rng.choice(corr_pool)), None
     xp, kind = gen_nodes(rng, n, kind)
     data_kind = str(rng.choice(['normal', 'affine', 'monotone']))
     if data_kind == 'normal':
@@ -486,10 +494,50 @@ def run(ctx: common.Ctx):
     ctx.expect(acc == bool((np.diff(c) > 0).all()), 'validation',
                f'PressureCoordinates accepted={acc} for {c.tolist()}', dict(centers=c.tolist()))
 
+  # one-node node sets on both code paths, scalar calls (eager) and vmapped + jitted, queries at / around / far from the node
+  j_one = jax.jit(lambda q, xp_, fp_: (v_int(q, xp_, fp_), vdot(q, xp_, fp_)))
+  one_sets = [(2.0, 7.0), (0.0, -3.5), (-1013.25, 1e-3), (0.5, 0.0)] + [
+      (float(rng.standard_normal() * 10.0 ** int(rng.integers(-3, 6))), float(rng.standard_normal()))
+      for _ in range(ctx.n(3, 40))]
+  one_results = []
+  for a, f in one_sets:
+    w = 1.5 + abs(a)
+    q = np.array([a, ulp_down(a), ulp_up(a), a - w, a + w, a - 1e6 * w, a + 1e6 * w, a])
+    inp = dict(xp=[a], fp=[f], x=q.tolist())
+    ctx.dist['one-node sets (dedicated stream)'] += 1
+    ctx.case(('one-node', a, f), nontrivial=True)
+    with ctx.impl('corr-exception', inp, 'implementation raised on a one-node node set'):
+      e_i = np.array([float(vi.interp(float(x), A([a]), A([f]))) for x in q])
+      e_d = np.array([float(vi._dot_interp(float(x), A([a]), A([f]))) for x in q])
+      b_i, b_d = (np.asarray(v) for v in j_one(A(q), A([a]), A([f])))
+      one_results.append((a, f, q, e_i, e_d, b_i, b_d))
+      for tag, r_i, r_d in (('eager', e_i, e_d), ('jit+vmap', b_i, b_d)):
+        add(f'interp F interp {fbits(a)} {fbits(f)} {fvec(q)}', f'interp (jnp.interp path)[one node, {tag}]', inp, r_i)
+        add(f'interp F dot {fbits(a)} {fbits(f)} {fvec(q)}', f'_dot_interp[one node, {tag}]', inp, r_d)
+  # the pre-repair `_dot_interp` (Dino.Interp.dotInterpOld), replayed against the MODEL ONLY: it returns 0 at the only
+  # node and the node value elsewhere, while the model of the current code returns the node value everywhere
+  w_q = [2.0, 1.0, 3.0, ulp_down(2.0), ulp_up(2.0)]
+  for op_, want in (('dotold', [0.0, 7.0, 7.0, 7.0, 7.0]), ('dot', [7.0] * 5), ('interp', [7.0] * 5)):
+    lines.append(f'interp F {op_} {fbits(2.0)} {fbits(7.0)} {fvec(w_q)}')
+    checks.append((op_, dict(x=w_q, xp=[2.0], fp=[7.0]), want, 'model-witness'))
+  # … and for two or more nodes the pre-repair model equals the current one (theorem dotInterpOld_eq_dotInterp)
+  xw = np.array([0.0, 1.0, 3.0])
+  qw = near_queries(rng, xw)
+  for op_ in ('dotold', 'dot'):
+    lines.append(f'interp F {op_} {fvec(xw)} {fvec([5.0, 7.0, 4.0])} {fvec(qw)}')
+    checks.append((op_, dict(x=qw.tolist(), xp=xw.tolist(), fp=[5.0, 7.0, 4.0]), None, 'model-old-vs-new'))
+
   tick('validation stream')
   # ------------------------------------------------------------------ run the model, compare
   outs = ctx.model(lines)
+  witness, old_new = {}, {}
   for (op, inp, impl, kind), o in zip(checks, outs):
+    if kind == 'model-witness':
+      witness[op] = (o not in ('bad-op', 'value-error', 'index-error', 'type-error')) and unopt(o) == impl
+      continue
+    if kind == 'model-old-vs-new':
+      old_new[op] = o
+      continue
     if kind == 'err':
       ctx.corr_exact(op, inp, impl, o)
       continue
@@ -516,6 +564,14 @@ def run(ctx: common.Ctx):
       ctx.corr_exact(op, inp, norm, mod)
     else:
       ctx.corr_float(op, inp, np.asarray(impl, dtype=float), np.asarray(unopt(o)))
+
+  ctx.obligation('model witness: pre-repair _dot_interp (dotInterpOld) returns 0 at the only node of ([2],[7]) and 7 one '
+                 'ulp / one unit away, the models of the current _dot_interp and of jnp.interp return 7 everywhere',
+                 'witness', all(witness.get(k, False) for k in ('dotold', 'dot', 'interp')), detail=repr(witness))
+  ctx.obligation('model: pre-repair and current _dot_interp coincide on three uneven nodes (adversarial queries)',
+                 'witness', old_new.get('dotold') is not None and old_new.get('dotold') == old_new.get('dot')
+                 and old_new.get('dot') not in ('bad-op', 'value-error', 'index-error', 'type-error'),
+                 detail=f'{len(qw)} queries')
 
   tick('model run + compare')
   # ------------------------------------------------------------------ probes on the real code
@@ -595,19 +651,28 @@ def run(ctx: common.Ctx):
                  dict(ainp, n=nsafe, out=ysa.tolist()))
 
   tick('probes interpolation')
-  # one-node corner: the two code paths of `interp` disagree at the node (model theorem
-  # dotInterp_one_node_ne_interp); reported as a finding only when it is listed, otherwise noted.
-  with ctx.impl('probe-exception', dict(case='one-node')):
-    v_i = float(vi.interp(2.0, A([2.0]), A([7.0])))
-    v_d = float(vi._dot_interp(2.0, A([2.0]), A([7.0])))
-    msg = (f'one node: interp(2.0,[2.0],[7.0]) = {v_i} on the jnp.interp path, {v_d} on the _dot_interp '
-           f'(accelerator) path')
-    ctx.case(('one-node', v_i, v_d), nontrivial=True)
-    if v_i != v_d:
-      if any(k['key'] == 'dot-interp-one-node' for k in ctx.known):
-        ctx.fail('dot-interp-one-node', msg, dict(x=2.0, xp=[2.0], fp=[7.0]))
-      else:
-        ctx.notes.append('finding (not counted as violation): ' + msg)
+  # one-node corner (finding dot-interp-one-node, repaired by the override `x <= xp[0]` of _dot_interp): the two code
+  # paths of `interp` agree at, below and above the only node and return the node value (theorems dotInterp_one_node,
+  # dotInterp_eq_interp, interp_one_node; exact: one weight 1.0 times the value).  A failure is a violation with that
+  # input as replay.  The defect is repaired, so a stale entry of known_findings.json must not mask a regression:
+  # the failure is recorded directly instead of through ctx.fail (which would downgrade it to KNOWN-FINDING).
+  def one_node_violation(what, inp):
+    ctx.failures.append(dict(key='dot-interp-one-node', what=what, input=inp))
+
+  for a, f, q, e_i, e_d, b_i, b_d in one_results:
+    for tag, r_i, r_d in (('scalar call', e_i, e_d), ('jit+vmap', b_i, b_d)):
+      for x, y_i, y_d in zip(q, r_i, r_d):
+        ctx.case(('one-node-probe', a, f, float(x), tag), nontrivial=True)
+        if not (float(y_i) == float(y_d) == f):
+          where = 'at the node' if x == a else ('below the node' if x < a else 'above the node')
+          one_node_violation(
+              f'one node, query {where} ({tag}): interp({float(x)!r},[{a!r}],[{f!r}]) = {float(y_i)!r} on the jnp.interp '
+              f'path, {float(y_d)!r} on the _dot_interp (accelerator) path, node value {f!r} (model: both return the node '
+              f'value, theorems dotInterp_one_node / dotInterp_eq_interp; the pre-repair override `x < xp[0]` returns 0 at '
+              f'the node, theorem dotInterpOld_one_node_ne_interp)',
+              dict(x=float(x), xp=[a], fp=[f], interp=float(y_i), dot_interp=float(y_d)))
+  ctx.expect(len(one_results) == len(one_sets), 'probe-exception', 'a one-node probe did not run', dict(case='one-node'))
+  with ctx.impl('probe-exception', dict(case='domain statements')):
     try:
       arr = 'returns shape ' + str(np.shape(vi._dot_interp(A([0.5, 1.5, 2.5, 0.1, 0.2]), A([0.0, 1.0, 3.0]), A([1.0, 2.0, 4.0]))))
     except Exception as e:  # pylint: disable=broad-except
